@@ -402,6 +402,35 @@ theorem c09_prefix_dump_f80_witness :
     dumpRaw true 10 (leBytes 12 0x3fffa000000000000000) = (0x3fffa000000000000000, 0) := by
   refine ⟨by decide, by decide⟩
 
+/-! ### the agent's deep copy of the trigger tree -/
+
+/-- deep_copy_filter keeps every spec list as it is — same entries, same order — so the payload layout the
+    writer uses after an agent update (`uftrace live -p PID …`) is the layout before the update, the one the
+    info file describes (c09_spec_lists_agree).  Tie: driver op DCOPY (real uftrace_deep_copy_triggers on the
+    tree built by libmcount from every generated option set) + the agent e2e family. -/
+theorem c09_deep_copy_preserves_spec_order (l : List LSpec) (isRet : Bool) :
+    copyArgs l = l ∧ layout isRet (copyArgs l) = layout isRet l := by
+  have h : copyArgs l = l := by
+    unfold copyArgs copyArgsG
+    simp only [↓reduceIte]
+    rw [copyArgs_tail_aux l [], List.nil_append]
+  rw [h]; exact ⟨rfl, rfl⟩
+
+/-- … for every filter of the tree: the copied tree is the same tree, a lookup finds the same list -/
+theorem c09_deep_copy_tree (t : FTree) : copyTree t = t ∧ ∀ addr, (copyTree t).find addr = t.find addr := by
+  have h : copyTree t = t := by
+    induction t with
+    | leaf => rfl
+    | node l s e a r ihl ihr => simp [copyTree, ihl, ihr, (c09_deep_copy_preserves_spec_order a false).1]
+  rw [h]; exact ⟨rfl, fun _ => rfl⟩
+
+/-- why the order is the property: linking the copies at the head (`list_add`) gives a different layout as soon
+    as a function has two values of different sizes — a 4-byte integer followed by a string -/
+theorem c09_deep_copy_order_matters :
+    let l : List LSpec := [⟨⟨1, .sint, 4, 0, 0, []⟩, true⟩, ⟨⟨2, .str, 0, 0, 0, []⟩, true⟩]
+    copyArgsG false l = l.reverse ∧ layout false (copyArgsG false l) ≠ layout false l := by
+  refine ⟨by decide, by decide⟩
+
 /-! ### unreadable pointers -/
 
 /-- A non-NULL string pointer whose first byte lies in no mapped readable region `[start, end)` —
